@@ -314,6 +314,7 @@ pub fn run(cfg: &Cfg) {
     }
     let n = if cfg.thorough { 3_000 } else { 250 };
     for i in 0..n {
+        let mut r = r.at(i as u64);
         let (meta, class) = if i % 2 == 0 {
             (MetadataWrapper::Layout(gen_layout(&mut r, &pool)), "layout")
         } else {
